@@ -508,9 +508,10 @@ def run(check, mirror, tier):
                 total += (i["frac"] * 10 ** (9 - fk)) if (i["has_frac"] and fk) else 0
                 total = -total if i["neg"] else total
                 # compare through a duration built without a fraction plus/minus whole nanosecond steps: value in seconds as a number
-                _, out, _ = replay_call(rb, ["feel", '(duration("%s") - duration("PT0S")) / duration("PT0.000000001S")' % txt])
-                got = out[6:].strip() if out.startswith("VALUE ") else out
-                return got != str(total), 'duration("%s") is %s ns, written value is %d ns' % (txt, got[:60], total)
+                _, out, _ = replay_call(rb, ["feel", 'string(duration("%s"))' % txt])
+                shown = out[6:].strip().strip('"') if out.startswith('VALUE "') else None
+                got = dt_duration_ns(shown) if shown is not None else None
+                return got != total, 'duration("%s") prints as %s = %s ns, written value is %d ns' % (txt, out[:60], got, total)
 
             jobs.append(lambda c, fk=fk, setup_dt=setup_dt, post_dt=post_dt, replay_dt=replay_dt: decide(
                 c, crate, "dt_duration_literal/frac%d" % fk, setup_dt, post_dt, replay_dt, rb, enums=ENUMS, models=DTM, min_paths=2, unwind=8,
